@@ -6,8 +6,12 @@
 //!
 //! usage: c10 xxh <n>                     writes cases.txt / impl.txt (XXH3-128 differential, all length classes)
 //!        c10 hist <n_histories> <outdir>  writes images, expectations and index.txt
+//!        c10 trees <n> <outdir>           writer-model correspondence: logical trees (Table::verif_shape + contents)
+//!                                         next to the image taken after the commit (tree_<i>.txt, timg_<i>.bin, trees.txt)
 #[path = "../c10_util.rs"]
 mod util;
+#[path = "../c10_tree.rs"]
+mod tree;
 
 use rv_harness::{Rng, hex, seed_from_env, silence_panics};
 use std::fmt::Write as _;
@@ -76,8 +80,16 @@ fn main() {
             std::fs::write(out.join("index.txt"), index).unwrap();
             println!("{}", stats.summary());
         }
+        Some("trees") => {
+            let n: u64 = args[2].parse().unwrap();
+            let out = std::path::PathBuf::from(&args[3]);
+            std::fs::create_dir_all(&out).unwrap();
+            let mut r = Rng::new(seed_from_env() ^ 0x7265_6573);
+            let st = tree::run(n, &mut r, &out);
+            println!("{}", st.summary());
+        }
         _ => {
-            eprintln!("usage: c10 xxh <n> | c10 hist <n> <outdir>");
+            eprintln!("usage: c10 xxh <n> | c10 hist <n> <outdir> | c10 trees <n> <outdir>");
             std::process::exit(2);
         }
     }
